@@ -91,7 +91,7 @@ func createGetCmafIngesterInfoHdlr(s *Server) func(ctx context.Context, input *i
 		if err != nil {
 			return nil, huma.Error400BadRequest(fmt.Sprintf("Invalid ID: %s", input.Id))
 		}
-		ing, ok := s.cmafMgr.ingesters[uint64(id)]
+		ing, ok := s.cmafMgr.getIngester(uint64(id))
 		if !ok {
 			return nil, huma.Error404NotFound(fmt.Sprintf("CMAF ingest %s not found", input.Id))
 		}
@@ -111,7 +111,7 @@ func createStepCmafIngesterHdlr(s *Server) func(ctx context.Context, input *idIn
 		if err != nil {
 			return nil, huma.Error400BadRequest(fmt.Sprintf("Invalid ID: %s", input.Id))
 		}
-		ci, ok := s.cmafMgr.ingesters[uint64(id)]
+		ci, ok := s.cmafMgr.getIngester(uint64(id))
 		if !ok {
 			return nil, huma.Error404NotFound(fmt.Sprintf("CMAF ingest %s not found", input.Id))
 		}
@@ -128,15 +128,15 @@ func createDeleteCmafIngesterHdlr(s *Server) func(ctx context.Context, input *id
 		if err != nil {
 			return nil, huma.Error400BadRequest(fmt.Sprintf("Invalid ID: %s", input.Id))
 		}
-		ci, ok := s.cmafMgr.ingesters[uint64(id)]
+		ci, ok := s.cmafMgr.getIngester(uint64(id))
 		if !ok {
 			return nil, huma.Error404NotFound(fmt.Sprintf("CMAF ingest %s not found", input.Id))
 		}
 		if ci.state == ingesterStateRunning {
-			ci.mgr.cancels[uint64(id)]()
+			ci.mgr.cancel(uint64(id))
 		}
 
-		s.cmafMgr.cancels[uint64(id)]()
+		s.cmafMgr.cancel(uint64(id))
 		resp := &CmafIngestDeleteResponse{}
 		resp.Body.ID = fmt.Sprintf("Deleted %s!", input.Id)
 		return resp, nil
